@@ -7,4 +7,6 @@ mkdir -p "$ROOT/target"
 gcc -shared -fPIC -O2 -o "$ROOT/target/fsshim.so" "$ROOT/harness/fsshim/fsshim.c" -ldl -lpthread
 cd "$ROOT/harness"
 cargo build --offline
+# C17: cargo-fuzz targets under AddressSanitizer (nightly toolchain, offline)
+cd "$ROOT/fz" && cargo +nightly fuzz build
 echo "setup ok"
